@@ -60,7 +60,7 @@ def gen(ctx: common.Ctx, n: int) -> Iterator[dict[str, Any]]:
         flags = [f for i, f in enumerate(flags) if f.startswith("-") or (i > 0 and flags[i - 1] in ("--python-version", "--platform", "--always-true", "--always-false", "--follow-imports"))]
         yield {"fn": "vlib.tasks.suppress:suppress",
                "args": {"files": files, "flags": flags, "target": "main.py", "key": ["C13", "core", c.id, k],
-                        "n_transforms": 3 if ctx.tier == "quick" else 6},
+                        "n_transforms": 3 if ctx.tier == "quick" else 4},
                "_case": f"{c.id}:{common.fingerprint(files)[:8]}", "_ops": ops}
     # exploration slice (VERIF_SEED-dependent): generated typed programs made ill-typed by one or two perturbations
     from vlib import typedgen
@@ -75,7 +75,7 @@ def gen(ctx: common.Ctx, n: int) -> Iterator[dict[str, Any]]:
                 ops2.append(op)
         yield {"fn": "vlib.tasks.suppress:suppress",
                "args": {"files": {"main.py": src}, "flags": r2.choice([[], ["--strict"], ["--warn-unreachable"]]), "target": "main.py",
-                        "key": ["C13x", ctx.seed, j], "n_transforms": 3 if ctx.tier == "quick" else 6},
+                        "key": ["C13x", ctx.seed, j], "n_transforms": 3 if ctx.tier == "quick" else 4},
                "_case": f"x:typedgen{j}", "_ops": ops2}
 
 
@@ -116,7 +116,7 @@ def mech(bad: str, case: dict[str, Any], out_before: str = "") -> str:
 
 def run(ctx: common.Ctx) -> None:
     quick = ctx.tier == "quick"
-    n = 2500 if quick else 12000
+    n = 2500 if quick else 4000
     n = max(10, int(n * float(os.environ.get("VERIF_SCALE", "1"))))
     ctx.rule = ("check-* corpus program (sometimes with one type-breaking mutation) x transformations: `# type: ignore` bare / "
                 "correct code / wrong code / multi-code on error lines, span-interior lines and random lines; --disable-error-code "
